@@ -439,6 +439,9 @@ func checkC18(w *World, r *Report) {
 		r.Check(strings.Join(callers, ",") == "yangDataChildren", "R18.10", "callers of Node.DefaultChildren", token.NoPos, "yangDataChildren only", "default children are enumerated in {"+strings.Join(callers, ",")+"}: outside yangDataChildren nothing tests whether a default belongs to the active or default case, so e.g. an absent non-presence container is created with the defaults of every case of a choice inside it")
 	})
 
+	r.Rule("R18.11", "the right node is asked: the choice-membership helpers receive (parent, child) and the configuration checker is asked about the case under examination resp. the choice and then the enclosing node — argument roles (parameter / loop element) at the six reviewed call sites", 6)
+	r.guard("R18.11", func() { c18ArgumentRoles(w, r) })
+
 	r.Rule("R18.3", "explicit data wins and decoration is idempotent in what it adds: a default is created only for a child name not already present; a leaf's HasDefault agrees with its Default (which suppresses a type default on a mandatory leaf)", 2)
 	r.guard("R18.3", func() {
 		fd, _ := w.FuncDecl(w.Method("schema", "addDefaults", "yangDataChildren"))
